@@ -490,6 +490,7 @@ impl<'a, K: KeyT, S: Sut<K>> Runner<'a, K, S> {
         e1["op2"] = e1["op"].clone();
         e1["op"] = json!("both");
         e1["ret2"] = e2["ret"].clone();
+        e1["cb2"] = e2["cb"].clone();
         e1["panic"] = json!(p1 || p2);
         e1["obs"] = o1;
         e1["obs2"] = o2;
